@@ -116,12 +116,12 @@ func (o oneByte) Read(p []byte) (int, error) {
 }
 func iotest1(s string) io.Reader { return oneByte{strings.NewReader(s)} }
 
-var names = []string{"a", "b", "a b", "a  b", "é", "d/a", "a\nb", "b  a", "A", "a/"}
+var names = []string{"a", "b", "a b", "a  b", "é", "d/a", "a\nb", "b  a", "A", "a/", "B", "d.a", "\xff", " a"}
 var contents = []string{"", "x", "y", "x\n", "x  a\n", strings.Repeat("0123456789abcdef", 4097) + "z"}
 
 func Run(r *fw.Run) {
 	maxSet := r.Pick(3, 4)
-	nn := r.Pick(10, 10)
+	nn := r.Pick(14, 14)
 	nc := r.Pick(6, 6)
 	ns, cs := names[:nn], contents[:nc]
 	r.Bounds["names"] = ns
@@ -237,6 +237,9 @@ func zipCase(scratch string, id int, z zipSpec) (msg string, created bool) {
 	prefix := z.mod + "@" + z.ver
 	hz, err1 := dirhash.HashZip(zp, dirhash.Hash1)
 	hd, err2 := dirhash.HashDir(dir, prefix, dirhash.Hash1)
+	if hd2, err3 := dirhash.HashDir(dir+string(os.PathSeparator), prefix, dirhash.Hash1); err3 != nil || hd2 != hd {
+		return fmt.Sprintf("HashDir with a trailing separator on the directory gives %s, %v instead of %s", hd2, err3, hd), true
+	}
 	if err1 != nil || err2 != nil {
 		return fmt.Sprintf("HashZip err=%v HashDir err=%v", err1, err2), true
 	}
